@@ -56,8 +56,9 @@ def check_text(inp):
         keys.append(ref.model_key(ver, prefix, dict(pairs)))
     if len(set(keys)) != len(keys):
         fails.append(failure("no two returned objects are equal", "duplicates: %d objects, %d distinct" % (len(keys), len(set(keys)))))
-    for i, a in enumerate(res):
-        for b in res[i + 1:]:
+    pool = res if len(res) <= 120 else res[:60] + res[-60:]        # pairwise == is quadratic; the model keys above cover everything
+    for i, a in enumerate(pool):
+        for b in pool[i + 1:]:
             if a == b:
                 fails.append(failure("pairwise different objects", "%r == %r" % (a.vector, b.vector)))
     # completeness: every valid v2/v3 vector occurring delimited must be returned
@@ -93,6 +94,34 @@ def special_delimiter_cases():
         for ver, v in vecs:
             for text in (d + v, v + d, d + v + d, "see " + v + d + " and", "x " + d + v + " y"):
                 out.append({"text": text, "planted": [[ver, v]]})
+    return out
+
+
+def long_cases():
+    """deterministic: the longest possible v2 / v3.0 / v3.1 vectors (every metric written), alone, after 300,000 characters
+    of filler, repeated 400 times in other spellings, and 3,000 different vectors in one text"""
+    import random
+    out = []
+    r = random.Random(13)
+    longest = []
+    for ver in ("2", "3"):
+        V = spec.VERS[ver]
+        for prefix in V.prefixes:
+            d = dict((m, [x for x in V.table[m] if x != V.nd][-1]) for m in V.order)
+            longest.append((ver, ref.build(prefix, d, list(V.order))))
+    for ver, v in longest:
+        out.append({"text": v, "planted": [[ver, v]]})
+        out.append({"text": ("lorem ipsum 123 " * 20000) + v + " dolor", "planted": [[ver, v]]})
+        out.append({"text": "(" + v + ")" + "," * 70000 + "\n" + v, "planted": [[ver, v]]})
+        prefix, m = ref.parse(ver, v)
+        sp = []
+        for _ in range(400):
+            ks = list(m)
+            r.shuffle(ks)
+            sp.append(ref.build(prefix, m, ks))
+        out.append({"text": " ; ".join(sp), "planted": [[ver, x] for x in sp[:5]]})
+    many = [gen.rng_vector(r, r.choice("23")) for _ in range(3000)]
+    out.append({"text": "\n".join(many), "planted": [[("3" if x.startswith("CVSS") else "2"), x] for x in many[::100]]})
     return out
 
 
@@ -185,6 +214,10 @@ def hyp_part(n_examples, shard):
 
 def run(tier, t0):
     part = runner.hyp_shards("vf.props.c13", "hyp_part", 6400 if tier == "quick" else 320000)
+    for inp in long_cases():
+        part.count(None, classes=("long-text",))
+        part.nontrivial_count += 1
+        part.check("text", check_text, inp)
     for inp in special_delimiter_cases():
         part.count(None, classes=("special-delimiter",))
         part.nontrivial_count += 1
@@ -201,4 +234,4 @@ def run(tier, t0):
                          ["results compared as a set (order comes from a set and is unspecified)",
                           "completeness asserted only for planted vectors that occur delimited on both sides", fuzz_note],
                          required=["chunk:" + k for k in ("filler-out", "filler-in", "unicode", "valid23", "valid4", "near", "repeat", "respelled-repeat", "glued", "minor", "min-v2")]
-                         + ["has-delimited-vector", "has-undelimited-vector", "26-char-v2", "atheris-execs:text", "special-delimiter"])
+                         + ["has-delimited-vector", "has-undelimited-vector", "26-char-v2", "atheris-execs:text", "special-delimiter", "long-text"])
